@@ -31,7 +31,15 @@ fn main() {
         Some("check") => {
             let prop = args.get(2).cloned().unwrap_or_default();
             let tier = args.get(3).cloned().unwrap_or_else(|| "quick".into());
-            props::run_check(&prop, &tier)
+            // an engine panic is a machinery failure, never a verdict
+            match std::panic::catch_unwind(|| props::run_check(&prop, &tier)) {
+                Ok(code) => code,
+                Err(p) => {
+                    let msg = p.downcast_ref::<String>().cloned().or_else(|| p.downcast_ref::<&str>().map(|s| s.to_string())).unwrap_or_default();
+                    println!("MACHINERY property={prop} the checker itself panicked: {msg}");
+                    2
+                }
+            }
         }
         Some("replay") => props::replay(args.get(2).map(|s| s.as_str()).unwrap_or("")),
         Some("path") => {
@@ -44,6 +52,7 @@ fn main() {
         }
         Some("smoke") => props::smoke(),
         Some("golden-gen") => props::c10::generate(),
+        Some("c09-worker") => props::c09::worker(&args[2..]),
         Some("sched-prog") => props::sched_prog(&args[2], args[3].parse().unwrap_or(1), args.get(4).and_then(|s| s.parse().ok()).unwrap_or(120.0)),
         Some("c20-inner") => props::c20::inner(&args[2..]),
         Some("c19-case") => props::c19::debug_case(args[2].parse().unwrap(), args[3].parse().unwrap(), &args[4]),
